@@ -8,10 +8,10 @@ binary file objects, CR-tolerant continuation joining, exact integer conversion.
 import ast
 
 from .. import AnalysisError
-from ..astutil import src, call_name, dotted, walk_local, try_fold, ancestors
+from ..astutil import path_conditions, src, call_name, dotted, walk_local, try_fold, ancestors
 from ..fn import FA
 from .. import rx
-from .yannylib import YANNY, YannyClass
+from .yannylib import row_dispatch_tests, YANNY, YannyClass
 from .c01 import check_intconv, upper_derived
 
 META = {
@@ -261,17 +261,7 @@ def check_raw(ctx, yc):
 def check_dispatch(ctx, yc):
     f = yc.method('_parse')
     fa = FA(f)
-    # the row branch: the If whose body feeds cells through self.convert() into the table
-    disp = []
-    for n in walk_local(f.node):
-        if isinstance(n, ast.If) and any(isinstance(c, ast.Call) and isinstance(c.func, ast.Attribute) and c.func.attr == 'convert' for b in n.body for c in ast.walk(b)) \
-                and any(isinstance(c, ast.Compare) and isinstance(c.ops[0], ast.In) for c in ast.walk(n.test)) and not any(
-                    isinstance(a, ast.If) and a is not n and any(isinstance(c, ast.Call) and isinstance(c.func, ast.Attribute) and c.func.attr == 'convert'
-                                                                 for b in a.body for c in ast.walk(b)) and any(n is x for x in ast.walk(a)) and isinstance(a.test, ast.Compare)
-                    and isinstance(a.test.ops[0], ast.In) for a in ancestors(n)):
-            cs = [c for c in ast.walk(n.test) if isinstance(c, ast.Compare) and isinstance(c.ops[0], ast.In)]
-            disp.extend(cs[:1])
-            break
+    disp = row_dispatch_tests(f)
     ctx.need(disp, '_parse: row dispatch test not found')
     for c in disp:
         ok = upper_derived(c.left, fa)
